@@ -109,3 +109,35 @@ def stateful_closure_cases():
                 exp = "%s %d true" % (str([10 * (i + 1) * 100 + i + 1 for i in range(n)]), n)
             out.append((body, exp, {"m": "ArrayBuild", "mac": "array::%s (stateful closure)" % mac, "n": n}))
     return out
+
+
+def param_pattern_cases():
+    """C11 / C01: the closure parameter pattern (plain, mut, ref, ref mut) binds a copy of the index (from_fn) or the
+    element (map); the loop counter is not reachable from the closure, so the array is always completely written.
+    `ref mut` forms may be rejected by rustc (allowed outcome)."""
+    out = []
+    n = 4
+    arr = "[%s]" % ", ".join("%dusize" % (10 * (i + 1)) for i in range(n))
+    idx = list(range(n))
+    el = [10 * (i + 1) for i in range(n)]
+    table = [
+        ("from_fn!", "konst::array::from_fn!(|i| i * 2)", [2 * i for i in idx], False),
+        ("from_fn!", "konst::array::from_fn!(|mut i| { i += 1; i })", [i + 1 for i in idx], False),
+        ("from_fn!", "konst::array::from_fn!(|ref i| *i * 2)", [2 * i for i in idx], False),
+        ("from_fn!", "konst::array::from_fn!(|ref mut i| { *i += 1; *i })", [i + 1 for i in idx], True),
+        ("from_fn!", "konst::array::from_fn!(|ref mut i| { *i += 1; 7 })", [7] * n, True),
+        ("from_fn_!", "konst::array::from_fn_!(|i| i * 2)", [2 * i for i in idx], False),
+        ("from_fn_!", "konst::array::from_fn_!(|mut i| { i += 1; i })", [i + 1 for i in idx], False),
+        ("from_fn_!", "konst::array::from_fn_!(|ref mut i| { *i += 1; *i })", [i + 1 for i in idx], True),
+        ("map!", "konst::array::map!(arr, |x| x + 1)", [x + 1 for x in el], False),
+        ("map!", "konst::array::map!(arr, |mut x| { x += 1; x })", [x + 1 for x in el], False),
+        ("map!", "konst::array::map!(arr, |ref x| *x + 1)", [x + 1 for x in el], False),
+        ("map!", "konst::array::map!(arr, |ref mut x| { *x += 1; *x })", [x + 1 for x in el], True),
+        ("map_!", "konst::array::map_!(arr, |x| x + 1)", [x + 1 for x in el], False),
+        ("map_!", "konst::array::map_!(arr, |mut x| { x += 1; x })", [x + 1 for x in el], False),
+        ("map_!", "konst::array::map_!(arr, |ref mut x| { *x += 1; *x })", [x + 1 for x in el], True),
+    ]
+    for mac, call, exp, may_reject in table:
+        body = "let arr: [usize; %d] = %s; let _ = &arr; let out: [usize; %d] = %s; format!(\"{:?}\", out)" % (n, arr, n, call)
+        out.append((body, str(exp), {"m": "ArrayBuild", "mac": "array::%s (parameter pattern)" % mac, "call": call}, may_reject))
+    return out
